@@ -197,7 +197,9 @@ pub fn run(ctx: &Ctx) -> (Spec, Report) {
         let root = scratch.join(format!("c{i}"));
         let mut files = vec![SrcFile { path: "src_root/victim_crate/src/lib.rs".into(), source: p.source.clone() }];
         if multi {
-            files.push(SrcFile { path: "src_root/other_crate/src/lib.rs".into(), source: "#[typeshare]\npub struct Bystander { pub z: u8 }\n".into() });
+            // clean crates sorted before and after the offending one: the error of one crate must stop all files
+            files.push(SrcFile { path: "src_root/aaa_first/src/lib.rs".into(), source: "#[typeshare]\npub struct BystanderA { pub z: u8 }\n".into() });
+            files.push(SrcFile { path: "src_root/zzz_last/src/lib.rs".into(), source: "#[typeshare]\npub struct BystanderZ { pub z: u8 }\n".into() });
         }
         write_tree(&root, &files);
         let out = if multi { root.join("out_dir") } else { root.join(format!("out.{}", lang.ext())) };
@@ -205,7 +207,7 @@ pub fn run(ctx: &Ctx) -> (Spec, Report) {
         if preexisting {
             if multi {
                 std::fs::create_dir_all(&out).unwrap();
-                for n in [format!("victim_crate.{}", lang.ext()), format!("other_crate.{}", lang.ext()), "VictimCrate.swift".to_string(), "unrelated.txt".to_string()] {
+                for n in [format!("victim_crate.{}", lang.ext()), format!("aaa_first.{}", lang.ext()), format!("zzz_last.{}", lang.ext()), "VictimCrate.swift".to_string(), "AaaFirst.swift".to_string(), "unrelated.txt".to_string()] {
                     std::fs::write(out.join(&n), b"// pre-existing content\n").unwrap();
                 }
             } else {
